@@ -7,6 +7,8 @@ prop, var = sid.split("_")
 src = sys.argv[2] if len(sys.argv) > 2 else "/tmp/wt_%s/_seed/%s" % (prop, var)
 dst = "/verif/seeded/%s" % sid
 if os.path.abspath(src) != dst:
+    if not os.path.isdir(src):
+        raise SystemExit("source directory %s does not exist" % src)
     if os.path.exists(dst):
         shutil.rmtree(dst)
     shutil.copytree(src, dst)
